@@ -673,3 +673,15 @@ func (c *Check) finalize(p *partial, nts map[uint64]struct{}) {
 	out.Flush()
 	os.Exit(exit)
 }
+
+// ViolationKeys lists the violations recorded so far in this process (development aid).
+func (c *Check) ViolationKeys() []string {
+	c.mu.Lock()
+	defer c.mu.Unlock()
+	var out []string
+	for k, v := range c.p.Viol {
+		out = append(out, fmt.Sprintf("%s x%d: %s [%s]", k, v.Count, v.What, v.CaseID))
+	}
+	sort.Strings(out)
+	return out
+}
